@@ -353,6 +353,81 @@ theorem loop_balanced (lc : Bool) (ring : List Sec) (n : Nat) (zones : List Nat)
                   · simp at hm; subst hm; exact Or.inr hrep
                 · exact Or.inr hm
 
+/-! ### a smaller replication factor gives a prefix -/
+
+/-- an answer extends what was chosen already -/
+theorem loop_ok_extends (lc : Bool) (ring : List Sec) (n : Nat) (zones : List Nat) (rf : Nat) :
+    ∀ (fuel : Nat) (rest : List Sec) (skipped : Nat) (chosen : List Sec) (reps : List Nat),
+      loop lc ring n zones rf fuel rest skipped chosen = .ok reps → chosen.map (·.ep) <+: reps := by
+  intro fuel
+  induction fuel with
+  | zero => intro rest skipped chosen reps h; simp [loop] at h
+  | succ fuel ih =>
+    intro rest skipped chosen reps h
+    unfold loop at h
+    by_cases h1 : rf ≤ chosen.length
+    · simp only [h1, if_true] at h
+      injection h with h
+      rw [h]; exact List.prefix_refl _
+    · simp only [h1, if_false] at h
+      by_cases h2 : (lc && skipped == n) = true
+      · simp [h2] at h
+      · simp only [h2] at h
+        cases hc : cursor ring rest with
+        | none => simp [hc] at h
+        | some p =>
+          obtain ⟨rep, rest'⟩ := p
+          simp only [hc] at h
+          by_cases ht : taken chosen rep.ep = true
+          · simp only [ht, if_true] at h; exact ih _ _ _ _ h
+          · simp only [ht] at h
+            by_cases hs : skipAZ zones chosen rep = true
+            · simp only [hs, if_true] at h; exact ih _ _ _ _ h
+            · simp only [hs] at h
+              have := ih _ _ _ _ h
+              rw [List.map_append] at this
+              exact List.IsPrefix.trans (List.prefix_append _ _) this
+
+/-- The decisions of the loop do not depend on `rf` except for where it stops: with a smaller
+    replication factor the answer is the corresponding prefix. -/
+theorem loop_prefix (lc : Bool) (ring : List Sec) (n : Nat) (zones : List Nat) (rf rf' : Nat) (hle : rf' ≤ rf) :
+    ∀ (fuel : Nat) (rest : List Sec) (skipped : Nat) (chosen : List Sec) (reps : List Nat),
+      chosen.length ≤ rf' →
+      loop lc ring n zones rf fuel rest skipped chosen = .ok reps →
+      loop lc ring n zones rf' fuel rest skipped chosen = .ok (reps.take rf') := by
+  intro fuel
+  induction fuel with
+  | zero => intro rest skipped chosen reps _ h; simp [loop] at h
+  | succ fuel ih =>
+    intro rest skipped chosen reps hlen h
+    have hext := loop_ok_extends lc ring n zones rf (fuel + 1) rest skipped chosen reps h
+    unfold loop at h ⊢
+    by_cases h1' : rf' ≤ chosen.length
+    · -- the smaller loop stops here: exactly the chosen ones, a prefix of the final answer
+      simp only [h1', if_true]
+      have hl : chosen.length = rf' := by omega
+      obtain ⟨t, ht⟩ := hext
+      rw [← ht, ← hl]
+      simp
+    · simp only [h1', if_false]
+      have h1 : ¬ rf ≤ chosen.length := by omega
+      simp only [h1, if_false] at h
+      by_cases h2 : (lc && skipped == n) = true
+      · simp [h2] at h
+      · simp only [h2] at h ⊢
+        cases hc : cursor ring rest with
+        | none => simp [hc] at h
+        | some p =>
+          obtain ⟨rep, rest'⟩ := p
+          simp only [hc] at h ⊢
+          by_cases ht : taken chosen rep.ep = true
+          · simp only [ht, if_true] at h ⊢; exact ih _ _ _ _ hlen h
+          · simp only [ht] at h ⊢
+            by_cases hs : skipAZ zones chosen rep = true
+            · simp only [hs, if_true] at h ⊢; exact ih _ _ _ _ hlen h
+            · simp only [hs] at h ⊢
+              exact ih _ _ _ _ (by simp; omega) h
+
 /-! ### `dedup` -/
 
 theorem mem_dedup {a : Nat} : ∀ {l : List Nat}, a ∈ dedup l ↔ a ∈ l
